@@ -1,1 +1,186 @@
-import Spydr.Names.Lemmas
+/-
+  Property C17 — EDIF export gives every object a legal, case-insensitively unique identifier and
+  records the original name as a rename.
+
+  Model: Spydr/Names/Model.lean (`makeValid`, `assignAll` = EdififyNames.make_valid and the writer's
+  pre-pass, as repaired by docs/fixes/names_1..5).  Specification: Spydr/Names/Spec.lean
+  (`checkEdifIdentifier`, `ciEq`, `scopeOk`, `identsDistinct`), written without the model.
+
+  All theorems hold for ALL names (any characters, any length ≥ 1) and ALL sibling lists, with one
+  unavoidable size hypothesis on the theorems that need the conflict loop to end:
+  `others.length < sibBound = 10^200`.  (Identifiers have at most 255 characters, so no algorithm
+  whatsoever can give pairwise distinct identifiers to arbitrarily many siblings; the bound is what
+  the counting argument of `conflictsFix_finished` needs: 4·n + 2 ≤ 10^248.)
+-/
+import Spydr.Names.LemmasPass
+import Spydr.Names.ModelOld
+
+namespace Spydr.Names
+
+/-- **Legality.** For any non-empty name and any siblings, `make_valid` returns an identifier the
+    EDIF reader accepts.  (No bound, no assumption on the characters.) -/
+theorem makeValid_legal (name : Str) (others : List Sib) (h : name ≠ []) :
+    Spec.checkEdifIdentifier (makeValid name others) = true :=
+  (makeValid_good others h).legal
+
+/-- **Freshness**, given that the conflict-fix recursion ended by itself (the flag the driver
+    reports): the result differs, ignoring case, from the name and the identifier of every other
+    sibling. -/
+theorem makeValid_fresh (name : Str) (others : List Sib)
+    (hfin : (makeValidF name others).2 = true) :
+    ∀ e ∈ others, Spec.ciEq (makeValid name others) e.name = false ∧
+      ∀ i, e.ident = some i → Spec.ciEq (makeValid name others) i = false := by
+  intro e he
+  obtain ⟨h1, h2⟩ := makeValid_fresh_of_finished others hfin e he
+  refine ⟨?_, fun i hi => ?_⟩
+  · rw [Bool.eq_false_iff]; intro hc; exact h1 ((ciEq_iff _ _).mp hc).symm
+  · rw [Bool.eq_false_iff]; intro hc; exact h2 i hi ((ciEq_iff _ _).mp hc).symm
+
+/-- **Termination** of `_conflicts_fix`: any fuel `≥ 2·|others|` is enough (the model uses
+    `2·|others| + 1`).  Proved, not assumed: the candidates' keys advance by 1 or 2 modulo
+    `10^248 + 1`, so `2·|others| + 1` consecutive candidates are pairwise different, and at most
+    `2·|others|` strings can conflict. -/
+theorem conflictsFix_finished (name : Str) (others : List Sib) (fuel : Nat) (hn : name ≠ [])
+    (hb : others.length < sibBound) (hf : 2 * others.length ≤ fuel) :
+    (conflictsFix others fuel (charsFix (lengthFix name))).2 = true :=
+  conflictsFix_finished_aux _ _ _ (Good_charsFix (lengthFix_ne_nil hn)) hf hb
+
+/-- Freshness without the run-time flag. -/
+theorem makeValid_fresh_bounded (name : Str) (others : List Sib) (hn : name ≠ [])
+    (hb : others.length < sibBound) :
+    ∀ e ∈ others, Spec.ciEq (makeValid name others) e.name = false ∧
+      ∀ i, e.ident = some i → Spec.ciEq (makeValid name others) i = false :=
+  makeValid_fresh name others (makeValidF_finished others hn hb)
+
+/-- **Rename recorded** (`_add_rename_property`): an element without identifier gets
+    `make_valid`'s result, keeps its name, and is flagged as renamed whenever the two differ. -/
+theorem rename_recorded (x : Sib) (others : List Sib) (hx : x.ident = none) :
+    (assignOne x others).ident = some (makeValid x.name others) ∧
+    (assignOne x others).name = x.name ∧
+    (makeValid x.name others ≠ x.name → (assignOne x others).rename = true) := by
+  rw [assignOne_of_none hx]
+  refine ⟨rfl, rfl, ?_⟩
+  intro hne
+  simp only [Bool.or_eq_true, bne_iff_ne, ne_eq]
+  exact Or.inr hne
+
+/-- **All identifiers distinct after the pre-pass** (induction over the sibling list): if the
+    identifiers that existed before are pairwise different ignoring case, then after the writer's
+    pre-pass every element has an identifier, names are untouched, and all identifiers of the
+    scope are pairwise different ignoring case. -/
+theorem assign_all_distinct (l : List Sib) (hn : ∀ x ∈ l, x.name ≠ []) (hb : l.length ≤ sibBound)
+    (hpre : l.Pairwise fun a b => ∀ i j, a.ident = some i → b.ident = some j → lower i ≠ lower j) :
+    Spec.identsDistinct (observe (assignAll l)) = true ∧
+    (∀ y ∈ assignAll l, y.ident.isSome = true) ∧
+    (assignAll l).map (·.name) = l.map (·.name) := by
+  have hok : PassOk ([] ++ l) := ⟨by simpa using hn, by simpa using hb⟩
+  have hsome : ∀ y ∈ assignAll l, y.ident.isSome = true := assignGo_all_some l [] (by simp)
+  refine ⟨identsDistinct_of_pairwise hsome ?_, hsome, by simpa [assignAll] using assignGo_names l []⟩
+  exact assignGo_identsDiffer l [] hok (by simp only [List.nil_append]; exact hpre)
+
+/-- **P for a whole scope.** After the pre-pass over any sibling list (elements with or without
+    previous identifiers, in any state of their rename flags), every element the writer named has
+    a legal identifier that differs, ignoring case, from the name and the identifier of every other
+    element of the scope, and carries the rename flag if its identifier is not its name. -/
+theorem assign_all_scopeOk (l : List Sib) (hn : ∀ x ∈ l, x.name ≠ []) (hb : l.length ≤ sibBound)
+    (hfl : ∀ x ∈ l, x.assigned = false) :
+    Spec.scopeOk (observe (assignAll l)) = true := by
+  have hok : PassOk ([] ++ l) := ⟨by simpa using hn, by simpa using hb⟩
+  apply scopeOk_of_invariants
+  · apply assignGo_pairOk l [] hok
+    simp only [List.nil_append]
+    apply List.Pairwise.imp_of_mem (R := fun _ _ => True)
+    · intro a b ha hb' _
+      refine ⟨fun h => ?_, fun h => ?_⟩
+      · rw [hfl a ha] at h; cases h
+      · rw [hfl b hb'] at h; cases h
+    · exact List.pairwise_of_forall (fun _ _ => trivial)
+  · apply assignGo_elemOk l [] hok
+    intro y hy h
+    rw [hfl y (by simpa using hy)] at h; cases h
+
+/-! ### non-vacuity: concrete inputs satisfying the hypotheses, with the values computed -/
+
+/-- `ABC`, `ABc`, `a-b`, `a b` as siblings (the shapes of the open findings) -/
+def exSibs : List Sib :=
+  [{ name := ['A', 'B', 'C'] }, { name := ['A', 'B', 'c'] }, { name := ['a', '-', 'b'] },
+   { name := ['a', ' ', 'b'], ident := some ['a', '_', 'B'], rename := true }]
+
+example : (assignAll exSibs).map (·.ident) =
+    [some ['a','b','c','_','s','d','n','_','1','_'], some ['a','b','c','_','s','d','n','_','2','_'],
+     some ['a','_','b','_','s','d','n','_','1','_'], some ['a','_','B']] := by decide
+
+example : (∀ x ∈ exSibs, x.name ≠ []) ∧ exSibs.length ≤ sibBound ∧ (∀ x ∈ exSibs, x.assigned = false) := by
+  refine ⟨by decide, by simp [exSibs, sibBound], by decide⟩
+
+example : Spec.scopeOk (observe (assignAll exSibs)) = true := by decide
+
+example : (makeValidF ['A', 'B', 'c'] [{ name := ['A', 'B', 'C'] }]) = (['a','b','c','_','s','d','n','_','1','_'], true) := by
+  decide
+
+set_option maxRecDepth 100000 in
+/-- a 300-character name: truncated to 255 and legal -/
+example : (makeValid (List.replicate 300 'a') []).length = 255 ∧
+    Spec.checkEdifIdentifier (makeValid (List.replicate 300 'a') []) = true := by decide
+
+/-! ### the pinned (unrepaired) rules violate the statements — formal record of the open findings -/
+
+open Old in
+/-- finding `make_valid.case-insensitive-collision`: `ABC` and `ABc` both keep their spelling. -/
+theorem pinned_violates_scopeOk :
+    ¬ ∀ l : List Sib, (∀ x ∈ l, x.name ≠ []) → (∀ x ∈ l, x.assigned = false) →
+        Spec.scopeOk (observe (Old.assignAll Rules.pinned l)) = true := by
+  intro h
+  have := h [{ name := ['A', 'B', 'C'] }, { name := ['A', 'B', 'c'] }] (by decide) (by decide)
+  revert this; decide
+
+open Old in
+/-- the same with only the case rule unrepaired -/
+example : Spec.scopeOk (observe (Old.assignAll ⟨true, true, false, true⟩
+    [{ name := ['A', 'B', 'C'] }, { name := ['A', 'B', 'c'] }])) = false := by decide
+
+open Old in
+/-- finding `make_valid.dash-kept`: `a-b` is returned unchanged and is not an identifier. -/
+theorem pinned_violates_legal_dash :
+    ¬ ∀ (name : Str) (others : List Sib), name ≠ [] →
+        Spec.checkEdifIdentifier (Old.makeValid Rules.pinned name others) = true := by
+  intro h
+  have := h ['a', '-', 'b'] [] (by decide)
+  revert this; decide
+
+open Old in
+example : Old.makeValid ⟨true, false, true, true⟩ ['a', '-', 'b'] [] = ['a', '-', 'b'] := by decide
+
+set_option maxRecDepth 100000 in
+open Old in
+/-- finding `make_valid.length-256`: a 256-character name is returned unchanged (limit is 255). -/
+theorem pinned_violates_legal_length :
+    ¬ ∀ (name : Str) (others : List Sib), name ≠ [] →
+        Spec.checkEdifIdentifier (Old.makeValid Rules.pinned name others) = true := by
+  intro h
+  have := h (List.replicate 256 'a') [] (by decide)
+  revert this; decide
+
+set_option maxRecDepth 100000 in
+open Old in
+example : (Old.makeValid ⟨false, true, true, true⟩ (List.replicate 300 'a') []).length = 256 := by decide
+
+/-- `a_sdn_111…1_` with 290 digits -/
+def longSuffixName : Str := ['a'] ++ sdnPre ++ List.replicate 290 '1' ++ ['_']
+
+set_option maxRecDepth 100000 in
+open Old in
+/-- finding `make_valid.length-over-256`: a `_sdn_N_` suffix longer than the limit makes the python
+    slice bound negative and the result longer than the input. -/
+theorem pinned_violates_legal_suffix :
+    ¬ ∀ (name : Str) (others : List Sib), name ≠ [] →
+        Spec.checkEdifIdentifier (Old.makeValid Rules.pinned name others) = true := by
+  intro h
+  have := h longSuffixName [] (by decide)
+  revert this; decide
+
+set_option maxRecDepth 100000 in
+open Old in
+example : 256 < (Old.makeValid ⟨true, true, true, false⟩ longSuffixName []).length := by decide
+
+end Spydr.Names
